@@ -4,9 +4,10 @@
 (* Declarations D: a set of records [m, p, r, g]                                            *)
 (*     m method, p pattern (UrlPattern: <<host, path>>), r / g = name of the remedy /       *)
 (*     diagnosis declared there (names identify the declaration).                           *)
-(* Request (m, u).  Observed outcome: [sel, dsel] = the scoped remedies / diagnoses the     *)
-(* dispatcher selected: sets of records [r, norm, params]                                   *)
-(*     r name, norm = reported normalised URL (text), params = set of <<name, value>>.      *)
+(* Request (m, u).  Observed outcome: [sel, dsel, lk]; sel / dsel = the scoped remedies /    *)
+(* diagnoses the dispatcher selected: sets of records [r, norm, params]                      *)
+(*     r name, norm = reported normalised URL (text), params = set of <<name, value>>;       *)
+(* lk = [match, norm, params]: what the policy tree's Lookup reports for the URL alone.       *)
 (*                                                                                          *)
 (* Accept(D, m, u, out) is TRUE exactly for the outcomes the statement permits:             *)
 (*   OnlyOwn   every selected name is declared for method m on a pattern matching u         *)
@@ -39,6 +40,9 @@ BestWins(D, m, u, mt, names, nameOf(_)) ==
 NormOK(D, u, mt, s)   == \E d \in D : Render(d.p) = s.norm /\ MatchesW(d.p, u, mt)
 ParamsOK(D, u, mt, s) == \E d \in D : Render(d.p) = s.norm /\ MatchesW(d.p, u, mt) /\ s.params = ParamPairs(d.p, u)
 
+\* what EndpointPolicyTree.Lookup itself reports for the URL (whatever the method): [match, norm, params]
+LookupOK(D, u, mt, lk) == lk.match => ParamsOK(D, u, mt, lk)
+
 RName(d) == d.r
 GName(d) == d.g
 
@@ -55,6 +59,7 @@ AcceptW(D, m, u, out, mt) ==
     /\ gn \subseteq {d.g : d \in own}
     /\ gn = {d.g : d \in wa} \/ gn = {d.g : d \in wo}
     /\ \A s \in out.dsel : NormOK(D, u, mt, s)
+    /\ LookupOK(D, u, mt, out.lk)
 
 Accept(D, m, u, out) == \E mt \in {0, 1} : AcceptW(D, m, u, out, mt)
 
@@ -92,6 +97,7 @@ AcceptShadowW(D, m, u, out, mt) ==
     /\ \/ BestWins(D, m, u, mt, {s.r : s \in out.dsel}, GName)
        \/ ShadowWins(D, m, u, mt, {s.r : s \in out.dsel}, GName)
     /\ \A s \in out.dsel : NormOK(D, u, mt, s)
+    /\ LookupOK(D, u, mt, out.lk)
 
 AcceptShadow(D, m, u, out) == \E mt \in {0, 1} : AcceptShadowW(D, m, u, out, mt)
 
